@@ -306,23 +306,17 @@ class BasilispImporter(  # type: ignore[misc]  # pylint: disable=abstract-method
         self,
         fullname: str,
         loader_state: Mapping[str, str],
-        path_stats: Mapping[str, int],
+        cached_code: list[types.CodeType],
         module: BasilispModule,
     ) -> None:
-        """Load and execute a cached Basilisp module."""
+        """Execute the validated cached bytecode of a Basilisp module."""
         filename = loader_state["filename"]
-        cache_filename = loader_state["cache_filename"]
 
         with timed(
             lambda duration: logger.debug(
                 f"Loaded cached Basilisp module '{fullname}' in {duration / 1000000}ms"
             )
         ):
-            logger.debug(f"Checking for cached Basilisp module '{fullname}''")
-            cache_data = self.get_data(cache_filename)
-            cached_code = _get_basilisp_bytecode(
-                fullname, path_stats["mtime"], path_stats["size"], cache_data
-            )
             compiler.compile_bytecode(
                 cached_code,
                 compiler.GeneratorContext(
@@ -420,13 +414,23 @@ class BasilispImporter(  # type: ignore[misc]  # pylint: disable=abstract-method
             if os.getenv(_NO_CACHE_ENVVAR, "").lower() == "true":
                 self._exec_module(fullname, spec.loader_state, path_stats, module)
             else:
+                # Only reading and validating the cache may fall back to the source; an
+                # exception raised by the cached code itself must not run the module twice.
                 try:
-                    self._exec_cached_module(
-                        fullname, spec.loader_state, path_stats, module
+                    logger.debug(f"Checking for cached Basilisp module '{fullname}''")
+                    cached_code = _get_basilisp_bytecode(
+                        fullname,
+                        path_stats["mtime"],
+                        path_stats["size"],
+                        self.get_data(spec.loader_state["cache_filename"]),
                     )
                 except (EOFError, ImportError, OSError) as e:
                     logger.debug(f"Failed to load cached Basilisp module: {e}")
                     self._exec_module(fullname, spec.loader_state, path_stats, module)
+                else:
+                    self._exec_cached_module(
+                        fullname, spec.loader_state, cached_code, module
+                    )
 
 
 def hook_imports() -> None:
